@@ -139,6 +139,32 @@ fn main() {
                             if a == b { ("ok", String::new(), out) } else { ("violated", format!("comment census differs: input {:?} / output {:?}", ci, co), out) }
                         }
                     }
+                    ("permutation", Ok(o)) => {
+                        // C12: top-level statements of the output are a permutation of the input's; statements that are not
+                        // `local NAME = require(..)/game:GetService(..)` keep their relative order; comments all survive
+                        let i = full_moon::parse_fallible(&src, cfg.syntax.into()).into_result().unwrap();
+                        fn stmt_keys(ast: &Ast) -> Vec<(String, bool)> {
+                            ast.nodes().stmts().map(|s| {
+                                let mut c = Collect::default();
+                                c.visit_stmt(s);
+                                let k = c.toks.join(" ");
+                                let is_req = k.starts_with("local ") && (k.contains("= require") || k.contains(": GetService") || k.contains(":GetService"));
+                                (k, is_req)
+                            }).collect()
+                        }
+                        let ki = stmt_keys(&i); let ko = stmt_keys(&o);
+                        let mut a: Vec<_> = ki.iter().map(|x| x.0.clone()).collect(); a.sort();
+                        let mut b: Vec<_> = ko.iter().map(|x| x.0.clone()).collect(); b.sort();
+                        let fi: Vec<_> = ki.iter().filter(|x| !x.1).map(|x| x.0.clone()).collect();
+                        let fo: Vec<_> = ko.iter().filter(|x| !x.1).map(|x| x.0.clone()).collect();
+                        let (_, ci) = normal_form(i); let (_, co) = normal_form(o);
+                        let mut ca = ci.clone(); ca.sort(); let mut cb = co.clone(); cb.sort();
+                        if a != b { ("violated", format!("statements are not a permutation: input {:?} / output {:?}", ki, ko), out) }
+                        else if fi != fo { ("violated", "non-require statements changed order".to_string(), out) }
+                        else if ca != cb { ("violated", format!("comment census differs: input {:?} / output {:?}", ci, co), out) }
+                        else if !cfg.sort_requires.enabled && ki != ko { ("violated", "statement order changed although sort_requires is off".to_string(), out) }
+                        else { ("ok", String::new(), out) }
+                    }
                     ("contains", Ok(_)) => {
                         let needle = contains.clone().unwrap();
                         if out.contains(&needle) { ("ok", String::new(), out) } else { ("violated", format!("output does not contain the verbatim text {:?}", needle), out) }
